@@ -418,7 +418,7 @@ func checkExplainNested(acts []builder.VerifC19NestedItem) (text, obs, fail, sig
 func hasUnmodelledKeyword(text string) bool {
 	for _, t := range builder.VerifC19Lex(text) {
 		switch t.Val {
-		case "GSUB5", "GSUB6", "GPOS2", "GPOS3", "GPOS4":
+		case "GSUB6", "GPOS2", "GPOS3", "GPOS4":
 			return true
 		}
 	}
@@ -651,6 +651,24 @@ func Gen(run *vlib.Run, seed uint64, tier string) {
 			addExplain(fs, "GPOS", ll, labels...)
 		}
 	}
+	// GSUB5 lookups: glyph sequences, classes, coverage sets, several subtables
+	r = root.Fork("ctx")
+	for i := 0; i < vlib.Count(tier, 150, 4000); i++ {
+		kind := fontKinds[i%len(fontKinds)]
+		fs := genFont(r, kind)
+		var ll gtab.LookupList
+		labels := []string{"font:" + kind, "GSUB5"}
+		for k := r.Range(1, 2); k > 0; k-- {
+			l := genCtxLookup(r, fs.numGlyphs())
+			ll = append(ll, l)
+			labels = append(labels, fmt.Sprintf("flags:%d", l.Meta.LookupFlags), fmt.Sprintf("subtables:%d", len(l.Subtables)))
+			for _, s := range l.Subtables {
+				labels = append(labels, fmt.Sprintf("%T", s)[6:])
+			}
+		}
+		addExplain(fs, "GSUB", ll, labels...)
+	}
+
 	// all flag subsets on every modelled type, with and without names / cmap
 	r = root.Fork("flags")
 	for _, kind := range []string{"named", "unnamed", "named-nocmap", "unnamed-nocmap"} {
